@@ -102,7 +102,8 @@ func (o *outPipe) Close() error                { return nil }
 var pieces = []string{"a", "b", " ", "x := 1", "é", "世界", "😀", "𝄞", "\n", "\r\n", "\n\n", "func f() {", "}", "\t", "// 注释", "\"s\"", "0",
 	"\uFFFD", "\uFEFF", "\u2028", "\u00A0", "e\u0301", "\u0000", "\U0010FFFF", "\u07FF\u0800", "\uFFFF",
 	// the first and last code points of every UTF-8 length and of the UTF-16 surrogate-pair range
-	"\u007F", "\u0080", "\uD7FF", "\uE000", "\uFFFE", "\U00010000", "\U00010001", "\U0001FFFF", "\U00020000", "\U0010FFFE", "a\U00010000b"}
+	"\u007F", "\u0080", "\uD7FF", "\uE000", "\uFFFE", "\U00010000", "\U00010001", "\U0001FFFF", "\U00020000", "\U0010FFFE", "a\U00010000b",
+	"!\"#$%&'()*+,-./:;<=>?@[\\]^_`{|}~", "%d%s", "\\n", "\x7f"}
 
 func genText(t *tape.Tape, max int) string {
 	n := t.Draw(max + 1)
@@ -163,6 +164,7 @@ type rng struct {
 type change struct {
 	r    *rng
 	text string
+	rl   int // > 0: also send the (deprecated, but sent by VS Code) rangeLength: UTF-16 units replaced
 }
 
 func frame(v any) []byte {
@@ -185,13 +187,17 @@ func changeJSON(cs []change) []any {
 			out = append(out, map[string]any{"text": c.text})
 			continue
 		}
-		out = append(out, map[string]any{
+		m := map[string]any{
 			"range": map[string]any{
 				"start": map[string]any{"line": c.r.SL, "character": c.r.SC},
 				"end":   map[string]any{"line": c.r.EL, "character": c.r.EC},
 			},
 			"text": c.text,
-		})
+		}
+		if c.rl > 0 {
+			m["rangeLength"] = c.rl
+		}
+		out = append(out, m)
 	}
 	return out
 }
@@ -337,7 +343,7 @@ func (e *Engine) Run(t *tape.Tape, keep bool) *sim.Result {
 			case kind < 20:
 				txt := genText(t, 30)
 				ver := d.version + 1
-				msg = notif("textDocument/didChange", map[string]any{"textDocument": map[string]any{"uri": d.uri, "version": ver}, "contentChanges": changeJSON([]change{{nil, txt}})})
+				msg = notif("textDocument/didChange", map[string]any{"textDocument": map[string]any{"uri": d.uri, "version": ver}, "contentChanges": changeJSON([]change{{nil, txt, 0}})})
 				apply = func() { d.text, d.version = txt, ver }
 				lastKind = "didChange_full"
 				note(fmt.Sprintf("didChange(full) %s %q", d.uri, clip(txt)))
@@ -361,7 +367,20 @@ func (e *Engine) Run(t *tape.Tape, keep bool) *sim.Result {
 					sl, sc := position(cur, so)
 					el, ec := position(cur, eo)
 					ins := genText(t, 5)
-					cs = append(cs, change{&rng{sl, sc, el, ec}, ins})
+					rl := 0
+					if t.Draw(2) == 1 {
+						// as VS Code does: the length of the replaced span in UTF-16 code units
+						for _, r := range cur[so:eo] {
+							rl++
+							if r >= 0x10000 {
+								rl++
+							}
+						}
+						if rl > 0 {
+							res.Probes["change_with_range_length"]++
+						}
+					}
+					cs = append(cs, change{&rng{sl, sc, el, ec}, ins, rl})
 					if eo == len(cur) {
 						res.Probes["edit_at_eof"]++
 					}
@@ -389,20 +408,20 @@ func (e *Engine) Run(t *tape.Tape, keep bool) *sim.Result {
 				lc := lineCount(d.text)
 				var cs []change
 				if t.Draw(2) == 0 {
-					cs = []change{{&rng{lc + 1 + t.Draw(3), 0, lc + 4, 0}, "ZZ"}}
+					cs = []change{{&rng{lc + 1 + t.Draw(3), 0, lc + 4, 0}, "ZZ", 0}}
 				} else {
 					bs := boundaries(d.text)
 					if len(bs) < 2 {
-						cs = []change{{&rng{lc + 2, 0, lc + 2, 0}, "ZZ"}}
+						cs = []change{{&rng{lc + 2, 0, lc + 2, 0}, "ZZ", 0}}
 					} else {
 						sl, sc := position(d.text, bs[len(bs)-1])
 						el, ec := position(d.text, bs[0])
-						cs = []change{{&rng{sl, sc, el, ec}, "ZZ"}}
+						cs = []change{{&rng{sl, sc, el, ec}, "ZZ", 0}}
 					}
 				}
 				if t.Draw(3) == 2 {
 					// a valid first change followed by the invalid one: nothing may be applied
-					cs = append([]change{{&rng{0, 0, 0, 0}, "Q"}}, cs...)
+					cs = append([]change{{&rng{0, 0, 0, 0}, "Q", 0}}, cs...)
 					res.Probes["invalid_after_valid_change"]++
 				}
 				msg = notif("textDocument/didChange", map[string]any{"textDocument": map[string]any{"uri": d.uri, "version": d.version + 1}, "contentChanges": changeJSON(cs)})
